@@ -21,7 +21,7 @@ ASSUMPTIONS = ["triangle orientation is by (chromosome rank, position), as docum
                "nowhere' is accepted there, 'counted somewhere' is not; records with a negative first anchor are not "
                "written to tabix files (not representable in a well-formed index)"]
 MIN_NONTRIVIAL = {"quick": 150, "thorough": 1500}
-REQUIRED_FEATURES = ["path:api", "path:sanitize_pixels", "path:cli-cload-pairs", "path:cli-load-bg2", "path:cli-load-coo",
+REQUIRED_FEATURES = ["history:second-bin-table-same-chromsizes-same-nbins", "path:api", "path:sanitize_pixels", "path:cli-cload-pairs", "path:cli-load-bg2", "path:cli-load-coo",
                      "path:tabix", "fate:out-of-range:pos=length", "fate:out-of-range:pos=-1", "fate:unknown-chrom",
                      "tril:reflect", "tril:drop", "tril:none", "one-based", "zero-based", "records:on-bin-edge",
                      "records:same-anchor", "sided-fields", "path:cli-cload-tabix", "option:square+copy-status-duplex",
@@ -94,6 +94,23 @@ def gen_records(rng, bt, nrec, bad_kind=None, with_unknown=True):
         r = [c, pos, c_o, other, "bad"] if rng.random() < 0.5 else [c_o, other, c, pos, "bad"]
         recs.insert(int(rng.integers(len(recs) + 1)), r)
     return recs
+
+
+def sibling_table(rng, bt):
+    """Same chromosomes and lengths, same number of bins, one interior edge moved by 1 bp (None if impossible)."""
+    cands = []
+    for ci, (_, e) in enumerate(bt):
+        for i in range(1, len(e) - 1):
+            if e[i] - e[i - 1] >= 2:
+                cands.append((ci, i, -1))
+            if e[i + 1] - e[i] >= 2:
+                cands.append((ci, i, +1))
+    if not cands:
+        return None
+    ci, i, dlt = cands[int(rng.integers(len(cands)))]
+    out = [[nm, list(e)] for nm, e in bt]
+    out[ci][1][i] += dlt
+    return out
 
 
 def ref_binning(bt, recs, tril):
@@ -259,6 +276,18 @@ def one_case(ctx, cid, rng, path, idx):
                 gx = {k: [v[1], v[2]] for k, v in results[0].items()}
                 c.check(gx == wx, "sided-fields-not-swapped-with-record", "sided extra fields are not swapped exactly on "
                         "the reflected records", lambda: {"got": sorted(gx.items())[:20], "want": sorted(wx.items())[:20]})
+                # history: in the same process, a SECOND bin table over the same chromosomes with the same number of
+                # bins (one interior edge moved by a base pair) - nothing of the first table may leak into its binning
+                bt2 = sibling_table(rng, bt)
+                if bt2 is not None:
+                    want2, _ = ref_binning(bt2, recs, tril)
+                    out2 = agg(sanitize_records(gen.bt_frame(bt2), **kw)(df.copy()))
+                    got2 = {(int(a), int(b)): int(cn) for a, b, cn in zip(out2["bin1_id"], out2["bin2_id"], out2["count"])}
+                    c.feature("history:second-bin-table-same-chromsizes-same-nbins")
+                    c.check(got2 == want2, "pixel-counts-differ:api:second-table-of-same-shape",
+                            "records binned against a second bin table (same chromosomes, same number of bins, one edge "
+                            "moved) do not land in that table's bins",
+                            lambda: {"bt2": bt2, "got": sorted(got2.items())[:20], "want": sorted(want2.items())[:20]})
                 if path == "api_create" and tril is not None:
                     out_uri = os.path.join(d, "api.cool")
                     chunks = [agg(sanit(ch.copy())) for ch in gen.chunk_frames(df, gen.random_cuts(rng, len(df), 4))]
